@@ -82,7 +82,7 @@ func genTNode(t *rapid.T, depth int) *TNode {
 		}
 		return n
 	}
-	n := &TNode{Kind: 2, Caps: rapid.SampledFrom([]int{0, 1, 1, 2, 3, 4, 5}).Draw(t, "caps")}
+	n := &TNode{Kind: 2, Caps: rapid.SampledFrom([]int{0, 1, 1, 2, 3, 4, 5, 6}).Draw(t, "caps")}
 	n.OwnWalk = rapid.IntRange(0, 7).Draw(t, "ownWalk") == 0
 	nk := rapid.IntRange(0, 4).Draw(t, "nk")
 	for i := 0; i < nk; i++ {
@@ -100,7 +100,7 @@ func genTNode(t *rapid.T, depth int) *TNode {
 
 func genC13(t *rapid.T) interface{} {
 	depth := rapid.SampledFrom([]int{1, 2, 3, 3, 4, 4, 5}).Draw(t, "depth")
-	root := &TNode{Kind: 2, Caps: rapid.SampledFrom([]int{0, 1, 1, 2, 3, 4, 5}).Draw(t, "rootcaps")}
+	root := &TNode{Kind: 2, Caps: rapid.SampledFrom([]int{0, 1, 1, 2, 3, 4, 5, 6}).Draw(t, "rootcaps")}
 	nk := rapid.IntRange(1, 4).Draw(t, "rootkids")
 	for i := 0; i < nk; i++ {
 		root.Kids = append(root.Kids, genTNode(t, depth-1))
@@ -191,6 +191,21 @@ func (c transI) TransformNode(userCtx interface{}, node parsley.Node) (parsley.N
 		return nil, parsley.NewError(node.Pos(), errors.New("trans failed"))
 	}
 	return ast.NewTerminalNode(nil, "T", fmt.Sprintf("t%d", c.id), node.Pos(), node.ReaderPos()), nil
+}
+
+// identI has a transformer that keeps its node: it returns the very node it was handed, and with
+// that decides that nothing below is transformed either.
+type identI struct{ baseI }
+
+func (c identI) TransformNode(userCtx interface{}, node parsley.Node) (parsley.Node, parsley.Error) {
+	c.e.log = append(c.e.log, fmt.Sprintf("trans %d", c.id))
+	if node != c.e.built[c.id] && node != c.e.inner[c.id] {
+		c.e.problems = append(c.e.problems, fmt.Sprintf("the transformer of node %d was handed a different node", c.id))
+	}
+	if c.e.failTrans == c.id {
+		return nil, parsley.NewError(node.Pos(), errors.New("trans failed"))
+	}
+	return node, nil
 }
 
 type bothI struct{ checkI }
@@ -312,6 +327,8 @@ func buildT(n *TNode, e *env13, pos *int) parsley.Node {
 			in = transI{b}
 		case 3:
 			in = bothI{checkI{b}}
+		case 6:
+			in = identI{b}
 		case 4:
 			in = interpreter.Select(n.Sel)
 		case 5:
@@ -578,7 +595,7 @@ func checkC13(ci interface{}, st *Stats) (err error) {
 		if n.Kind != 2 { // terminals, empties and user-defined blocks are not transformable
 			return
 		}
-		if n.Caps == 2 || n.Caps == 3 {
+		if n.Caps == 2 || n.Caps == 3 || n.Caps == 6 {
 			transformers = append(transformers, n)
 			return
 		}
@@ -599,7 +616,7 @@ func checkC13(ci interface{}, st *Stats) (err error) {
 		if n.Kind != 2 {
 			return true
 		}
-		if n.Caps == 2 || n.Caps == 3 {
+		if n.Caps == 2 || n.Caps == 3 || n.Caps == 6 {
 			transWant = append(transWant, fmt.Sprintf("trans %d", n.id))
 			return n.id != e.failTrans
 		}
@@ -645,6 +662,9 @@ func checkC13(ci interface{}, st *Stats) (err error) {
 		}
 		if n.Caps == 2 || n.Caps == 3 {
 			return fmt.Sprintf("T=t%d", n.id)
+		}
+		if n.Caps == 6 {
+			return plainShape(n) // kept by its own transformer, subtree and all
 		}
 		parts := make([]string, len(n.Kids))
 		for i, k := range n.Kids {
@@ -784,8 +804,8 @@ func checkC13(ci interface{}, st *Stats) (err error) {
 				if n.Kind == 2 && (n.Caps == 2 || n.Caps == 3) {
 					return &TNode{Kind: 3, id: n.id}
 				}
-				if n.Kind == 4 {
-					return n // nothing below a block is transformed
+				if n.Kind == 4 || (n.Kind == 2 && n.Caps == 6) {
+					return n // nothing below a block, or below a node its transformer kept, is transformed
 				}
 				cp := &TNode{Kind: n.Kind, Caps: n.Caps, Sel: n.Sel, id: n.id}
 				for _, k := range n.Kids {
